@@ -241,7 +241,34 @@ pub enum WOp {
 	Drop,
 }
 
+/// blocks whose uncompressed / compressed sizes sit on the internal buffer boundaries (8 KiB
+/// `BufReader`, 32 KiB starting output vector and its doublings): incompressible payloads
+pub fn generate_big(seed: u64, n: usize, emit: &mut dyn FnMut(String)) {
+	let mut rng = rng_from(seed, "ocfw-big");
+	let raw: RawSchema = vec![RawNode { reg: Reg::Bytes, logical: None }];
+	let schema = build::to_schema_mut(&raw).freeze().unwrap();
+	for i in 0..n {
+		let codec = CODECS[i % CODECS.len()];
+		let approx = *[65536usize, 0, 1 << 20, 32768].choose(&mut rng).unwrap();
+		let k = rng.gen_range(1..3);
+		let sync: Vec<u8> = (0..16).map(|_| rng.gen()).collect();
+		let mut w = W::default();
+		w.t("ocfw").t(codec).n(approx).n(cfg!(debug_assertions) as usize).schema(&raw).xs(schema.json()).n(0).xb(&sync).n(0);
+		w.n(k + 1);
+		for _ in 0..k {
+			let len = *[8191usize, 8192, 8193, 32765, 32767, 32768, 32769, 40000, 65535, 65536, 65537, 70000].choose(&mut rng).unwrap();
+			let payload: Vec<u8> = if rng.gen_bool(0.8) { (0..len).map(|_| rng.gen()).collect() } else { vec![7u8; len] };
+			w.t("val").sv(&SV::Bytes(payload));
+		}
+		w.t("into");
+		emit(w.s);
+	}
+}
+
 pub fn generate_w(stream: &str, seed: u64, n: usize, emit: &mut dyn FnMut(String)) {
+	if stream == "ocfw-big" {
+		return generate_big(seed, n, emit);
+	}
 	let mut rng = rng_from(seed, stream);
 	for _ in 0..n {
 		let mut sg = SchemaGen::new(&mut rng, 8, false);
@@ -575,20 +602,30 @@ pub fn generate_r(stream: &str, seed: u64, n: usize, emit: &mut dyn FnMut(String
 	let mut rng = rng_from(seed, stream);
 	let mut produced = 0;
 	while produced < n {
+		let big = stream == "ocfr-big";
 		let mut sg = SchemaGen::new(&mut rng, 8, false);
 		sg.decimals = false;
-		let raw = sg.gen_root();
+		let raw = if big { vec![RawNode { reg: Reg::Bytes, logical: None }] } else { sg.gen_root() };
 		let Ok(schema) = build::to_schema_mut(&raw).freeze() else { continue };
 		let codec = match stream {
 			"ocfr-null" | "ocfr-damage" => "null",
+			"ocfr-big" => CODECS[produced % CODECS.len()],
 			_ => *CODECS.choose(&mut rng).unwrap(),
 		};
-		let k = rng.gen_range(0..7);
+		let k = if big { rng.gen_range(1..3) } else { rng.gen_range(0..7) };
 		let mut values = vec![];
 		let mut datums = vec![];
 		let mut config = serde_avro_fast::ser::SerializerConfig::new(&schema);
 		let mut ok = true;
 		for _ in 0..k {
+			if big {
+				let len = *[8191usize, 8192, 8193, 32765, 32768, 32769, 40000, 65536, 65537].choose(&mut rng).unwrap();
+				let payload: Vec<u8> = if rng.gen_bool(0.8) { (0..len).map(|_| rng.gen()).collect() } else { vec![7u8; len] };
+				let v = SV::Bytes(payload);
+				datums.push(serde_avro_fast::to_datum_vec(&v, &mut config).unwrap());
+				values.push(v);
+				continue;
+			}
 			let mut vg = ValueGen {
 				rng: &mut rng,
 				schema: &raw,
